@@ -95,10 +95,12 @@ theorem renet_sameAlong_on {o : Obj K} (hw : C06.WF o m) (d : Fin m) {tol : K} (
   rw [l, r]
   exact h
 
-/-- "`o'` evaluates like `o`" for surfaces over the bases `(b1, b2)`, `(b1', b2')`. -/
+/-- "`o'` evaluates like `o`" for surfaces over the bases `(b1, b2)`, `(b1', b2')` (parameter lists of
+non-periodic directions non-empty: the real code raises `ValueError` for `[]` there). -/
 def SameEvalSurface (tol : K) (b1 b1' b2 b2' : Basis K) (o o' : Obj K) : Prop :=
   ∀ us vs : List K, (∀ u ∈ us, b1.Admissible tol u) → (∀ u ∈ us, b1'.Admissible tol u) →
     (∀ v ∈ vs, b2.Admissible tol v) → (∀ v ∈ vs, b2'.Admissible tol v) →
+    (b1.periodic < 0 ∨ b1'.periodic < 0 → us ≠ []) → (b2.periodic < 0 ∨ b2'.periodic < 0 → vs ≠ []) →
     ∃ res, o.evaluate tol [us, vs] true = .ok res ∧ res.shape = [us.length, vs.length, o.dimension] ∧
       o'.evaluate tol [us, vs] true = .ok res ∧
       o'.evaluate tol [us, vs] false = o.evaluate tol [us, vs] false
@@ -115,7 +117,11 @@ theorem raiseImplicit_surface_sameEval (o : Obj K) (tol : K) (htol : 0 < tol) (h
   have heq := raiseImplicit_surface_eq o tol hw au av bu' bv' hu.raise hv.raise pu pv hgu hgv Niu Niv Hu Hv
     Eu Ev hu.rows hv.rows
   refine ⟨_, heq, ?_⟩
-  intro us vs hus hus' hvs hvs'
+  intro us vs hus hus' hvs hvs' hneU hneV
+  have hneU1 : _ → us ≠ [] := fun h => hneU (Or.inl h)
+  have hneU2 : _ → us ≠ [] := fun h => hneU (Or.inr h)
+  have hneV1 : _ → vs ≠ [] := fun h => hneV (Or.inl h)
+  have hneV2 : _ → vs ≠ [] := fun h => hneV (Or.inr h)
   have hb := bases_of_wf2 hw
   have hs := shape_of_wf2 hw
   obtain ⟨_, w1', b1d, b1k, n1', r1'⟩ := renet_dirOK hw (0 : Fin 2) tol au bu' Eu hu
@@ -222,7 +228,11 @@ theorem raiseImplicit_surface_sameEval_w (o : Obj K) (tol : K) (htol : 0 < tol) 
   have heq := raiseImplicit_surface_eq_proj o tol hw au av bu' bv' hu.raise hv.raise pu pv hgu hgv Niu Niv Hu Hv
     Eu Ev pju pjv
   refine ⟨_, heq, ?_⟩
-  intro us vs hus hus' hvs hvs'
+  intro us vs hus hus' hvs hvs' hneU hneV
+  have hneU1 : _ → us ≠ [] := fun h => hneU (Or.inl h)
+  have hneU2 : _ → us ≠ [] := fun h => hneU (Or.inr h)
+  have hneV1 : _ → vs ≠ [] := fun h => hneV (Or.inl h)
+  have hneV2 : _ → vs ≠ [] := fun h => hneV (Or.inr h)
   have hb := bases_of_wf2 hw
   have hs := shape_of_wf2 hw
   obtain ⟨w1', b1d, b1k, n1', r1'⟩ := renet_wf hw (0 : Fin 2) bu' hu.valid' Eu
@@ -279,6 +289,8 @@ def SameEvalVolume (tol : K) (b1 b1' b2 b2' b3 b3' : Basis K) (o o' : Obj K) : P
   ∀ us vs ws : List K, (∀ u ∈ us, b1.Admissible tol u) → (∀ u ∈ us, b1'.Admissible tol u) →
     (∀ v ∈ vs, b2.Admissible tol v) → (∀ v ∈ vs, b2'.Admissible tol v) →
     (∀ w ∈ ws, b3.Admissible tol w) → (∀ w ∈ ws, b3'.Admissible tol w) →
+    (b1.periodic < 0 ∨ b1'.periodic < 0 → us ≠ []) → (b2.periodic < 0 ∨ b2'.periodic < 0 → vs ≠ []) →
+    (b3.periodic < 0 ∨ b3'.periodic < 0 → ws ≠ []) →
     ∃ res, o.evaluate tol [us, vs, ws] true = .ok res ∧
       res.shape = [us.length, vs.length, ws.length, o.dimension] ∧
       o'.evaluate tol [us, vs, ws] true = .ok res ∧
@@ -296,7 +308,13 @@ theorem raiseImplicit_volume_sameEval (o : Obj K) (tol : K) (htol : 0 < tol) (hw
   have heq := raiseImplicit_volume_eq o tol hw au av aw bu' bv' bw' hu.raise hv.raise hw2.raise pu pv pw
     hgu hgv hgw Niu Niv Niw Hu Hv Hw Eu Ev Ew hu.rows hv.rows hw2.rows
   refine ⟨_, heq, ?_⟩
-  intro us vs ws hus hus' hvs hvs' hws hws'
+  intro us vs ws hus hus' hvs hvs' hws hws' hneU hneV hneW
+  have hneU1 : _ → us ≠ [] := fun h => hneU (Or.inl h)
+  have hneU2 : _ → us ≠ [] := fun h => hneU (Or.inr h)
+  have hneV1 : _ → vs ≠ [] := fun h => hneV (Or.inl h)
+  have hneV2 : _ → vs ≠ [] := fun h => hneV (Or.inr h)
+  have hneW1 : _ → ws ≠ [] := fun h => hneW (Or.inl h)
+  have hneW2 : _ → ws ≠ [] := fun h => hneW (Or.inr h)
   have hb := bases_of_wf3 hw
   have hs := shape_of_wf3 hw
   -- step 1
@@ -439,7 +457,13 @@ theorem raiseImplicit_volume_sameEval_w (o : Obj K) (tol : K) (htol : 0 < tol) (
   have heq := raiseImplicit_volume_eq_proj o tol hw au av aw bu' bv' bw' hu.raise hv.raise hw2.raise pu pv pw
     hgu hgv hgw Niu Niv Niw Hu Hv Hw Eu Ev Ew pju pjv pjw
   refine ⟨_, heq, ?_⟩
-  intro us vs ws hus hus' hvs hvs' hws hws'
+  intro us vs ws hus hus' hvs hvs' hws hws' hneU hneV hneW
+  have hneU1 : _ → us ≠ [] := fun h => hneU (Or.inl h)
+  have hneU2 : _ → us ≠ [] := fun h => hneU (Or.inr h)
+  have hneV1 : _ → vs ≠ [] := fun h => hneV (Or.inl h)
+  have hneV2 : _ → vs ≠ [] := fun h => hneV (Or.inr h)
+  have hneW1 : _ → ws ≠ [] := fun h => hneW (Or.inl h)
+  have hneW2 : _ → ws ≠ [] := fun h => hneW (Or.inr h)
   have hb := bases_of_wf3 hw
   have hs := shape_of_wf3 hw
   -- step 1
@@ -604,7 +628,9 @@ theorem sameEvalCurve_of_elevatedOn {o o' : Obj K} {b b' : Basis K} (hb : o.base
     (hnc : o.rational = true → 1 ≤ nc) {tol : K} (htol : 0 < tol)
     (hE : ElevatedOn (fun u => b.Admissible tol u ∧ b'.Admissible tol u) tol b b' nc o o') :
     Bridge.SameEvalCurve tol b b' o o' := by
-  intro us hus hus'
+  intro us hus hus' hneU
+  have hneU1 : _ → us ≠ [] := fun h => hneU (Or.inl h)
+  have hneU2 : _ → us ≠ [] := fun h => hneU (Or.inr h)
   obtain ⟨hb', hrat, hs', hmap, _⟩ := hE
   have hsame : ∀ p, p < us.length → Bridge.SameAlong o o' 0 b.numFunctions b'.numFunctions
       (b.specRow (us.getD p 0)) (b'.specRow (us.getD p 0)) := by
